@@ -62,11 +62,22 @@ Definition boundary (n : Z) (m : PositiveMap.t Z) (ts : list tri) : list dedge :
 Definition sumZ {E} (f : E -> Z) (l : list E) : Z := fold_right (fun x acc => f x + acc) 0 l.
 
 (* ---- geometry on segments ---- *)
-(* c lies on the closed segment [a,b] *)
+(* c lies on the closed segment [a,b]: inside its bounding box and within 2^-40 |ab| of the
+   line through a and b (Steiner points that Triangle inserts on a segment are computed in
+   floating point, so they are on the line only up to rounding) *)
+Definition two80 : Z := Eval vm_compute in 2 ^ 80.
 Definition on_segment (a b c : pt) : bool :=
-  (orient a b c =? 0) &&
-  (Z.min (fst a) (fst b) <=? fst c) && (fst c <=? Z.max (fst a) (fst b)) &&
-  (Z.min (snd a) (snd b) <=? snd c) && (snd c <=? Z.max (snd a) (snd b)).
+  (* cheap bounding-box tests first (vm_compute is call-by-value: use if, not &&) *)
+  if Z.min (fst a) (fst b) <=? fst c then
+  if fst c <=? Z.max (fst a) (fst b) then
+  if Z.min (snd a) (snd b) <=? snd c then
+  if snd c <=? Z.max (snd a) (snd b) then
+    let o := orient a b c in
+    if o =? 0 then true
+    else
+      let l2 := (fst b - fst a) * (fst b - fst a) + (snd b - snd a) * (snd b - snd a) in
+      o * o * two80 <=? l2 * l2
+  else false else false else false else false.
 
 (* squared distance and the parameter order along a->b *)
 Definition dot_along (a b c : pt) : Z := (fst c - fst a) * (fst b - fst a) + (snd c - snd a) * (snd b - snd a).
